@@ -212,7 +212,7 @@ class QuadricTensor(ProjectiveTensor, ABC):
             return [LineCollection.from_array(p), LineCollection.from_array(q)]
         return [PlaneCollection.from_array(p), PlaneCollection.from_array(q)]
 
-    def intersect(self, other: LineTensor) -> list[PointTensor] | list[LineTensor]:
+    def intersect(self, other: LineTensor, _reducible: bool | None = None) -> list[PointTensor] | list[LineTensor]:
         """Calculates points of intersection of a line with the quadric.
 
         This method also returns complex points of intersection, even if the quadric and the line do not intersect in
@@ -228,7 +228,7 @@ class QuadricTensor(ProjectiveTensor, ABC):
           - J. Richter-Gebert: Perspectives on Projective Geometry, Section 11.3
 
         """
-        reducible: bool | np.bool_ = np.all(self.is_degenerate)
+        reducible: bool | np.bool_ = np.all(self.is_degenerate) if _reducible is None else _reducible
         if reducible:
             try:
                 e, f = self.components
@@ -249,7 +249,10 @@ class QuadricTensor(ProjectiveTensor, ABC):
                 projected_quadric = QuadricCollection.from_array(matmul(matmul(m, self.array), m, transpose_b=True))
                 return [
                     PointCollection.from_array(np.squeeze(matmul(np.expand_dims(point.array, -2), m), -2))
-                    for point in projected_quadric.intersect(line)
+                    # plane sections of an irreducible quadric are irreducible unless the plane is tangent, the general
+                    # construction covers that case as well (a section that is only close to a pair of lines must not be
+                    # split into components)
+                    for point in projected_quadric.intersect(line, _reducible=False)
                 ]
             else:
                 m = hat_matrix(other.array)
